@@ -178,6 +178,7 @@ class Report:
             "rule": "one evaluation per (rule, instance) obligation extracted from the MIR/call graph of the current tree; "
                     "distinct = distinct (rule, site key) pairs",
             "functions_analysed": len(self.functions),
+            "functions": sorted(self.functions),
             "call_sites": self.call_sites,
             "rule_instances": per_rule,
             "floors": {r: {"measured": m, "floor": f} for r, (m, f) in self.floors.items()},
